@@ -3,7 +3,11 @@
 
 package blockchain
 
-import "github.com/dappledger/AnnChain/gemmill/types"
+import (
+	"time"
+
+	"github.com/dappledger/AnnChain/gemmill/types"
+)
 
 // Constructors and a decoder for the block-sync messages, whose types are unexported: the
 // verification harness plays scripted peers on the real channel.
@@ -44,4 +48,12 @@ func VerifDecode(bz []byte) (kind string, height int64, block *types.Block) {
 		return "status-response", m.Height, nil
 	}
 	return "", 0, nil
+}
+
+// VerifSetPeerTimeout sets the pool's peer timeout (seconds; the variable exists to be overridden
+// in tests) and returns the previous value.
+func VerifSetPeerTimeout(seconds int) int {
+	old := int(peerTimeoutSeconds)
+	peerTimeoutSeconds = time.Duration(seconds)
+	return old
 }
